@@ -74,14 +74,19 @@ inductive CReach (p : Evm.Params) : Evm.World × Evm.Frame → Evm.World × Evm.
   | tail {x w g w' h} : CReach p x (w, g) → Evm.step p w g = .next w' h → CReach p x (w', h)
 
 /-- the symbolic storage maps of the executing account `this` against the concrete world `w`, for a run started in the
-    world `w0`: the account's storage and transient storage are zero in `w0` (halmos' non-symbolic initial storage);
-    every slot of `this` holds, in `w`, the value of the term last stored (zero if never written); every bound term is
-    a well-formed 256-bit term; nothing else of the world differs from `w0` -/
+    world `w0`: the account's plain slots (those below 2^64) and its transient storage are zero in `w0` (halmos'
+    non-symbolic initial storage); every plain slot written holds, in `w`, the value of the term last stored, every
+    other slot of `this` what it held in `w0` (zero for a plain slot; the cells at hashed locations are not the
+    business of this relation); the map binds plain slots to well-formed 256-bit terms; nothing else of the world
+    differs from `w0` -/
 structure WRel (I : Interp) (w0 w : Evm.World) (this : Nat) (sto tr : List (Nat × T)) : Prop where
-  zero : ∀ slot, Evm.lookupD w0.storage (this, slot) = 0 ∧ Evm.lookupD w0.transient (this, slot) = 0
-  hsto : ∀ slot, Evm.lookupD w.storage (this, slot) = (stoGet sto slot).eval I
+  zero : ∀ slot, (slot < 2 ^ 64 → Evm.lookupD w0.storage (this, slot) = 0) ∧ Evm.lookupD w0.transient (this, slot) = 0
+  hsto : ∀ slot, Evm.lookupD w.storage (this, slot) =
+    if (sto.find? (fun kv => kv.1 == slot)).isSome then (stoGet sto slot).eval I
+    else Evm.lookupD w0.storage (this, slot)
   htr : ∀ slot, Evm.lookupD w.transient (this, slot) = (stoGet tr slot).eval I
   wf : ∀ kv, kv ∈ sto ∨ kv ∈ tr → kv.2.WF ∧ kv.2.width = 256
+  keys : ∀ kv ∈ sto, kv.1 < 2 ^ 64
   other : ∀ a slot, a ≠ this → Evm.lookupD w.storage (a, slot) = Evm.lookupD w0.storage (a, slot) ∧
             Evm.lookupD w.transient (a, slot) = Evm.lookupD w0.transient (a, slot)
   rest : w.code = w0.code ∧ w.balance = w0.balance ∧ w.balanceDefault = w0.balanceDefault ∧
@@ -507,27 +512,48 @@ theorem lookupD_insert (m : List ((Nat × Nat) × Nat)) (k k' : Nat × Nat) (v d
 theorem WRel.init {I : Interp} {w0 : Evm.World} {this : Nat}
     (hz : ∀ slot, Evm.lookupD w0.storage (this, slot) = 0 ∧ Evm.lookupD w0.transient (this, slot) = 0) :
     WRel I w0 w0 this [] [] :=
-  ⟨hz, fun slot => (hz slot).1, fun slot => (hz slot).2,
-   fun kv h => by rcases h with h | h <;> exact absurd h List.not_mem_nil, fun _ _ _ => ⟨rfl, rfl⟩,
+  ⟨fun slot => ⟨fun _ => (hz slot).1, (hz slot).2⟩, fun slot => rfl, fun slot => (hz slot).2,
+   fun kv h => by rcases h with h | h <;> exact absurd h List.not_mem_nil,
+   fun kv h => absurd h List.not_mem_nil, fun _ _ _ => ⟨rfl, rfl⟩,
    ⟨rfl, rfl, rfl, rfl, rfl⟩⟩
+
+/-- a plain slot holds the value of the term last stored, zero if never written -/
+theorem WRel.hsto_lt {I : Interp} {w0 w : Evm.World} {this : Nat} {sto tr : List (Nat × T)}
+    (h : WRel I w0 w this sto tr) {slot : Nat} (hlt : slot < 2 ^ 64) :
+    Evm.lookupD w.storage (this, slot) = (stoGet sto slot).eval I := by
+  rw [h.hsto slot]
+  split
+  · rfl
+  · rename_i hn
+    rw [(h.zero slot).1 hlt]
+    unfold stoGet
+    cases hf : sto.find? (fun kv => kv.1 == slot) with
+    | none => rfl
+    | some kv => rw [hf] at hn; simp at hn
 
 /-- SSTORE of a well-formed word `v` (denoting `n`) at `slot` -/
 theorem WRel.sstore {I : Interp} {w0 w : Evm.World} {this : Nat} {sto tr : List (Nat × T)}
-    (h : WRel I w0 w this sto tr) (slot : Nat) {t : T} {n : Nat} (ht : t.WF ∧ t.width = 256) (he : t.eval I = n) :
+    (h : WRel I w0 w this sto tr) (slot : Nat) (hlt : slot < 2 ^ 64) {t : T} {n : Nat} (ht : t.WF ∧ t.width = 256)
+    (he : t.eval I = n) :
     WRel I w0 { w with storage := Evm.insert w.storage (this, slot) n } this ((slot, t) :: sto) tr := by
-  refine ⟨h.zero, ?_, h.htr, ?_, ?_, h.rest⟩
+  refine ⟨h.zero, ?_, h.htr, ?_, ?_, ?_, h.rest⟩
   · intro k
-    simp only [lookupD_insert, stoGet_cons]
+    simp only [lookupD_insert, stoGet_cons, List.find?_cons]
     by_cases hk : k = slot
     · subst hk; simp [he]
     · have : ¬ (this, k) = (this, slot) := by simpa using hk
-      simp only [this, hk, if_false]; exact h.hsto k
+      have hb : ((slot, t).1 == k) = false := by simpa using fun e => hk e.symm
+      simp only [this, hk, if_false, hb]; exact h.hsto k
   · intro kv hkv
     rcases hkv with hkv | hkv
     · rcases List.mem_cons.1 hkv with rfl | hkv
       · exact ht
       · exact h.wf kv (Or.inl hkv)
     · exact h.wf kv (Or.inr hkv)
+  · intro kv hkv
+    rcases List.mem_cons.1 hkv with rfl | hkv
+    · exact hlt
+    · exact h.keys kv hkv
   · intro a k ha
     have : ¬ (a, k) = (this, slot) := by
       intro e; exact ha (Prod.mk.inj e).1
@@ -537,7 +563,7 @@ theorem WRel.sstore {I : Interp} {w0 w : Evm.World} {this : Nat} {sto tr : List 
 theorem WRel.tstore {I : Interp} {w0 w : Evm.World} {this : Nat} {sto tr : List (Nat × T)}
     (h : WRel I w0 w this sto tr) (slot : Nat) {t : T} {n : Nat} (ht : t.WF ∧ t.width = 256) (he : t.eval I = n) :
     WRel I w0 { w with transient := Evm.insert w.transient (this, slot) n } this sto ((slot, t) :: tr) := by
-  refine ⟨h.zero, h.hsto, ?_, ?_, ?_, h.rest⟩
+  refine ⟨h.zero, h.hsto, ?_, ?_, h.keys, ?_, h.rest⟩
   · intro k
     simp only [lookupD_insert, stoGet_cons]
     by_cases hk : k = slot
